@@ -118,7 +118,8 @@ fn store_seed(inputs: &Path, s: &Seed) {
         seed::Aux::Base(b) => json!({"base": b}),
     };
     let tokens: Vec<Value> = s.tokens.iter().map(|t| json!([t.name, t.start, t.end, t.markers, t.ordinary])).collect();
-    std::fs::write(&pj, serde_json::to_vec(&json!({"fields": fields, "seqs": seqs, "tokens": tokens, "aux": aux})).unwrap())
+    let regions: Vec<Value> = s.regions.iter().map(|r| json!([r.name, r.start, r.len, r.size_fields, r.arrays])).collect();
+    std::fs::write(&pj, serde_json::to_vec(&json!({"fields": fields, "seqs": seqs, "tokens": tokens, "regions": regions, "aux": aux})).unwrap())
         .unwrap_or_else(|e| tool_error(&format!("write {pj:?}: {e}")));
 }
 
@@ -150,6 +151,15 @@ pub fn load_seed(inputs: &Path, fmt: &str, name: &str) -> Seed {
             end: us(&t[2]),
             markers: t[3].as_array().map(|a| a.iter().map(|x| (us(&x[0]) as u8, us(&x[1]))).collect()).unwrap_or_default(),
             ordinary: t[4].as_array().map(|a| a.iter().map(|x| us(x) as u8).collect()).unwrap_or_default(),
+        });
+    }
+    for r in m["regions"].as_array().map(|a| a.as_slice()).unwrap_or(&[]) {
+        s.regions.push(seed::Region {
+            name: r[0].as_str().unwrap_or("").to_string(),
+            start: us(&r[1]),
+            len: us(&r[2]),
+            size_fields: r[3].as_array().map(|a| a.iter().map(us).collect()).unwrap_or_default(),
+            arrays: r[4].as_array().map(|a| a.iter().map(|x| (x[0].as_str().unwrap_or("").to_string(), us(&x[1]), us(&x[2]))).collect()).unwrap_or_default(),
         });
     }
     s.aux = if let Some(n) = m["aux"].get("names") {
@@ -565,6 +575,29 @@ fn expand(seeds: &[Seed], plan: &[Value], thorough: bool) -> Vec<Input> {
                         let second = if all_pairs { norm_field(&fb.name) } else { norm_field(&fb.name).rsplit_once('.').map(|x| x.1.to_string()).unwrap_or_default() };
                         let what = format!("{}+{}", norm_field(&fa.name), second);
                         out.push(mk(json!({"k":"set2","f":fi,"val":va.to_string(),"g":fj,"val2":vb.to_string()}), p, what, format!("{va:x}"), len));
+                    }
+                }
+                "resize" => {
+                    // structured regions: the whole region (role tail) or one inner array (role array) shorter / longer
+                    // by one byte (-1b / +1b) or one element (-1e / +1e); see mutate.rs "resize"
+                    for (ri, r) in s.regions.iter().enumerate() {
+                        let last_elem = r.arrays.last().map(|a| a.2).unwrap_or(1);
+                        let sites: Vec<(String, usize, usize)> = if role == "tail" {
+                            vec![("tail".to_string(), r.start + r.len, last_elem)]
+                        } else {
+                            r.arrays.iter().filter(|a| a.1 < r.start + r.len).cloned().collect()
+                        };
+                        for (an, at, elem) in sites {
+                            let n = if val.ends_with('e') { elem } else { 1 };
+                            if n == 0 || n >= r.len || (val.ends_with('e') && elem == 1) {
+                                continue;
+                            }
+                            let grow = val.starts_with('+');
+                            let what = format!("{}.{}", norm_field(&r.name), norm_field(&an));
+                            let mut i = mk(json!({"k":"resize","r":ri,"at":at,"n":n,"grow":grow,"tail":role == "tail"}), p, what, format!("{n:x}"), len);
+                            i.unit = elem as u64;
+                            out.push(i);
+                        }
                     }
                 }
                 "token" => {
